@@ -20,6 +20,7 @@ import HtaVerif.Spec.C08
 import HtaVerif.Model.C09
 import HtaVerif.Model.C10
 import HtaVerif.Model.C19
+import HtaVerif.Model.C20
 /-!
 `htadrv` — line protocol driver. One JSON request per input line, one JSON answer per
 output line. Imports only `Model/*` and `Spec/*` (core Lean), never a proof file.
@@ -393,6 +394,54 @@ def handle (j : Json) : Except String Json := do
       ("potential_ok", Json.bool pot), ("within_makespan", Json.bool mk),
       ("n_path_edges", jInt (C09.pathEdges es path).length),
       ("span_bounded", Json.bool (es.all fun e => decide (e.w ≤ ts e.dst - ts e.src)))]
+  | "c20.overlay" =>
+    let raw ← (← getArr (← field j "raw")).toList.mapM fun v => do
+      let a ← getArr v
+      return ({ isX := ← getBool a[0]!, keepCat := ← getBool a[1]!, pid := ← getInt a[2]!, tid := ← getInt a[3]!,
+                ts := ← getInt a[4]!, dur := ← getInt a[5]!, onDevice := ← getBool a[6]! } : C20.Src)
+    let parseEdges (v : Json) : Except String (List C20.Edge) := do
+      (← getArr v).toList.mapM fun x => do
+        let a ← getArr x
+        return ({ srcEv := (← getInt a[0]!).toNat, srcIsStart := ← getBool a[1]!, dstEv := (← getInt a[2]!).toNat,
+                  dstIsStart := ← getBool a[3]!, weight := ← getInt a[4]!, type := ← getStr a[5]!, critical := ← getBool a[6]! } : C20.Edge)
+    let all ← parseEdges (← field j "edges_all")
+    let ce ← parseEdges (← field j "edges_crit")
+    let crit := (← intList (← field j "crit")).filterMap fun i => if i < 0 then none else some i.toNat
+    let oc ← getBool (← field j "only_critical")
+    let sa ← getBool (← field j "show_all")
+    let sz ← getBool (← field j "show_zero")
+    let out := C20.overlay raw crit all ce oc sa sz
+    let heads := out.filterMap fun o => match o with
+      | .src i m => some (Json.arr #[jInt (i : Int), Json.bool m])
+      | _ => none
+    let flows := out.filterMap fun o => match o with
+      | .flow id st p t ts c w cr => some (Json.arr #[Json.str (if st then "s" else "f"), jInt (id : Int), jInt p, jInt t, jInt ts,
+          Json.str c, Json.str "critical_path", jInt w, Json.bool cr, (if st then Json.null else Json.str "e"), Json.arr #[], Json.arr #[]])
+      | _ => none
+    return Json.mkObj [("head", Json.arr heads.toArray), ("flows", Json.arr flows.toArray)]
+  | "c20.append" =>
+    let src := (← intList (← field j "src")).map Int.toNat
+    let out := (← intList (← field j "out")).map Int.toNat
+    let isC ← (← getArr (← field j "is_counter")).toList.mapM getBool
+    return Json.mkObj [("append_only", Json.bool (C20.checkAppendOnly src out isC)),
+      ("n_src", jInt (src.length : Int)), ("n_out", jInt (out.length : Int))]
+  | "c20.rank" =>
+    let parseDoc (v : Json) : Except String C20.Doc := do
+      (← getArr v).toList.mapM fun x => do
+        let a ← getArr x
+        return (← getStr a[0]!, (← getInt a[1]!).toNat)
+    let doc ← parseDoc (← field j "doc")
+    let dij ← field j "di"
+    let di ← (match dij with
+      | Json.null => pure none
+      | v => do pure (some (← parseDoc v)) : Except String (Option C20.Doc))
+    let r := (← getInt (← field j "rank_id")).toNat
+    let dumpDoc (d : C20.Doc) : Json := Json.arr (d.map fun p => Json.arr #[Json.str p.1, jInt (p.2 : Int)]).toArray
+    -- top level: distributedInfo is added at the end when missing; other fields untouched (their ids are opaque here)
+    let hasDi := doc.any fun p => p.1 == "distributedInfo"
+    let keys := doc.map (·.1) ++ (if hasDi then [] else ["distributedInfo"])
+    return Json.mkObj [("keys", Json.arr (keys.map Json.str).toArray), ("di", dumpDoc (C20.setRank di r)),
+      ("other", dumpDoc (doc.filter fun p => p.1 != "distributedInfo"))]
   | "c19" =>
     let parseAdj (v : Json) : Except String (Nat × List (Nat × C19.Attr)) := do
       let a ← getArr v
